@@ -11,7 +11,7 @@ RULE = ("JWEs built by the independent reference implementation for all 21 key-m
         "segment (protected header, encrypted key, IV, ciphertext, tag, AAD), re-spelling of the protected header that parses to "
         "the same members, tag/IV truncation and extension, non-empty encrypted key in direct modes, cross-token splices, wrong "
         "recipient / sender key, epk edits (other curve, off-curve point, wrong kty, unknown crv, private member, missing/retyped "
-        "members, key_ops); several recipients with one damaged or wrapped to another CEK under verify_all on/off. Every case "
+        "members, key_ops); for key-management parameters carried in the per-recipient header (GCM-KW iv/tag, PBES2 p2s/p2c): flips, truncation, extension and octets shifted across the encrypted-key / key-wrap-tag boundary; several recipients with one damaged or wrapped to another CEK under verify_all on/off. Every case "
         "runs through the Lean model (oracle protocol) and joserfc; independently the reference decryptor decides on the received "
         "octets; non-trivial = distinct (value, key, registry)")
 ASSUMPTIONS = ["no primitive law is used by the C02 theorems", "that an AEAD rejects modified inputs is the cryptographic assumption, not claimed"]
@@ -28,8 +28,13 @@ def build_cases(ctx, n):
                     kn=E.key_name(alg, enc, rng),
                     header_extra=(rng.choice([None, {"typ": "x"}, {"apu": "QWxpY2U", "apv": "Qm9i"}, {"apu": "QQ"}]) if alg.startswith("ECDH")
                                   else rng.choice([None, None, {"typ": "x", "kid": "k"}])),
-                    alg_in="recipient" if ser == "general" and not alg.startswith("ECDH") and rng.random() < 0.4 else "protected")
+                    alg_in="recipient" if ser in ("general", "flat") and not alg.startswith("ECDH") and rng.random() < 0.5 else "protected")
         valid.append(c)
+    # always present: key-management parameters outside the protected header, for both JSON forms
+    for alg in ("A128GCMKW", "A192GCMKW", "A256GCMKW", "PBES2-HS256+A128KW"):
+        for ser in ("flat", "general"):
+            enc = rng.choice(list(R.ENCS))
+            valid.append(E.build(rng, alg, enc, ser, b"attack at dawn", aad=rng.choice([None, b"aad"]), kn=E.key_name(alg, enc, rng), alg_in="recipient"))
     cases = list(valid)
     for c in valid:
         cases += E.tamper(c, rng, valid)
